@@ -14,7 +14,7 @@
    (Fix/ScrubProofs.v)  sbad j / pbad l / dtags j: the same for the scrub readers *)
 From Coq Require Import NArith ZArith List Bool Arith Lia.
 From Snap.Array Require Import ArrayDefs SyncProofsDefs.
-From Snap.Fix Require Import FixModel ScrubStep RepairProofs StripeProofs ScrubProofs.
+From Snap.Fix Require Import FixModel ScrubStep RepairProofs StripeProofs ScrubProofs Examples.
 Require Snap.Scrub.ScrubModel.
 Import ListNotations.
 
@@ -125,3 +125,17 @@ Theorem C04_scrub_no_false_alarm :
               /\ ScrubModel.c_silent (so_cnt o) = ScrubModel.c_silent cnt.
 Proof. exact scrub_stripe_quiet. Qed.
 Print Assumptions C04_scrub_no_false_alarm.
+
+(* Non-vacuity (Fix/Examples.v): the undamaged two-disk two-level stripe satisfies the hypotheses of C04_check_no_false_alarm;
+   with level 1 overwritten scrub marks it bad and names the level *)
+Example C04_example_check_quiet :
+  let s' := stripe_step x_hashf x_padz x_truncf x_bs 2 false x_newino 999 x_check x_c x_fs_ok x_s_ok 0 in
+  r_tags s' = [] /\ r_err s' = 0 /\ r_rec s' = 0 /\ r_unrec s' = 0 /\ r_fs s' = x_fs_ok /\ r_par s' = x_par_ok.
+Proof. exact x_check_quiet. Qed.
+Print Assumptions C04_example_check_quiet.
+Example C04_example_scrub_detects :
+  exists o, scrub_stripe x_hashf x_bs 2 100 {| ScrubModel.c_error := 0; ScrubModel.c_silent := 0; ScrubModel.c_io := 0 |} x_c
+                         [[PEnc [11; 12]%N]; [PJunk 7]] x_fs_ok 0 = Some o
+            /\ so_bad o = true /\ so_tags o = [(K_SC_PAR_DATA, [0; 1]%N)].
+Proof. exact x_scrub_detects. Qed.
+Print Assumptions C04_example_scrub_detects.
